@@ -33,6 +33,7 @@ def runModel (fuel : Nat) (s : St) : St :=
 
 def handleRun (toks impl : List String) : String :=
   if impl = ["hang"] then "VIOL clause=lt.returns" else
+  if impl = ["hang-skipped"] then "SKIP reason=after-three-hangs" else
   if impl.head? = some "panic" then "VIOL clause=lt.no_crash" else
   match (field toks "k"), (field toks "gz"), (field impl "ret"), (field impl "W").bind nat?,
         (field impl "lines").bind nat?, (field impl "total").bind nat?, (field impl "delivered").bind nat?,
